@@ -122,6 +122,7 @@ LxInit(cfg) ==
            svclog |-> <<>>,                 \* FAILED tag services of the current call: [key, off, bit, svc, status, ext]
            okslices |-> {},                 \* <<key, off>> of slices with a successful service in the current call
            texts |-> LOpt(cfg, "status_texts", <<>>),
+           access |-> LOpt(cfg, "access_texts", <<>>), fw |-> LOpt(cfg, "fw", 0), allprogs |-> LOpt(cfg, "all_programs", 1) = 1,
            upl |-> [pages |-> 0] ]
 
 LxCall(lx, ev) == IF ~lx.on THEN lx ELSE [lx EXCEPT !.pre = lx.mem, !.xfer = <<>>, !.ledger = <<>>, !.svclog = <<>>, !.okslices = {}]
